@@ -325,8 +325,29 @@ pub fn family_i_jobs() -> (Vec<IJob>, BTreeMap<String, u64>) {
             generated.push(Template { name, src, params: &["T", "bool"], ret: "T", signed_only: false, unsigned_only: false, other: None });
         }
     }
-    for tpl in TEMPLATES.iter().chain(generated.iter()) {
+    // numbers at the edges of the 32 bits an untyped number is kept in, given a type only through a binding
+    let mut boundary: Vec<(Template, i128)> = vec![];
+    for v in [2147483647i128, 2147483648, 3000000000, 4294967295] {
+        for (shape, body, params, ret) in [
+            ("let v=N;x^v", format!("  let v = {{{v}:T}};\n  x ^ v\n"), &["T"][..], "T"),
+            ("let v=N;v^x", format!("  let v = {{{v}:T}};\n  v ^ x\n"), &["T"][..], "T"),
+            ("let a=[N,N];a[1]^x", format!("  let a = [{{{v}:T}}, {{{v}:T}}];\n  a[1] ^ x\n"), &["T"][..], "T"),
+            ("let t=(N,true);t.0^x", format!("  let t = ({{{v}:T}}, true);\n  t.0 ^ x\n"), &["T"][..], "T"),
+            ("for v in [N]{r^=v}", format!("  let mut r = x;\n  for v in [{{{v}:T}}] {{\n    r = r ^ v;\n  }}\n  r\n"), &["T"][..], "T"),
+            ("let v=N;v as T", format!("  let v = {{{v}:T}};\n  let w = v as T;\n  w ^ x\n"), &["T"][..], "T"),
+            ("let v=N;x<v", format!("  let v = {{{v}:T}};\n  if x < v {{ x }} else {{ v }}\n"), &["T"][..], "T"),
+        ] {
+            let name: &'static str = Box::leak(format!("boundary {v}: {shape}").into_boxed_str());
+            let src: &'static str = Box::leak(format!("pub fn main(x: T) -> T {{\n{body}}}\n").into_boxed_str());
+            boundary.push((Template { name, src, params, ret, signed_only: false, unsigned_only: false, other: None }, v));
+        }
+    }
+    let boundary_value: BTreeMap<&str, i128> = boundary.iter().map(|(t, v)| (t.name, *v)).collect();
+    for tpl in TEMPLATES.iter().chain(generated.iter()).chain(boundary.iter().map(|(t, _)| t)) {
         for t in tys {
+            if boundary_value.get(tpl.name).map(|v| !t.fits(*v)).unwrap_or(false) {
+                continue;
+            }
             if (tpl.signed_only && !t.signed()) || (tpl.unsigned_only && t.signed()) {
                 continue;
             }
